@@ -11,7 +11,8 @@ WT="${VERIF_WT:-/tmp/wt-mut}"; TAG=$(basename "$WT")
 RP=/tmp/mut-replays-$TAG; EV=/tmp/mut-evidence-$TAG; OUT=/tmp/try_mutant-$TAG.out
 [ -d "$WT" ] || git -C /repo worktree add -q --detach "$WT" HEAD || exit 3
 rm -rf "$RP" "$EV"; mkdir -p "$RP" "$EV"
-cd "$WT" && git checkout -q -- . && git clean -qfd && git apply "$P" || { echo "APPLY-FAILED $P"; exit 3; }
+# the scratch worktree follows /repo's HEAD (fix commits included)
+cd "$WT" && git checkout -q -- . && git clean -qfd && git checkout -q --detach "$(git -C /repo rev-parse HEAD)" && git apply "$P" || { echo "APPLY-FAILED $P"; exit 3; }
 cd "$VROOT" && VERIF_REPO="$WT" VERIF_EVIDENCE_DIR="$EV" VERIF_REPLAYS_DIR="$RP" ./check "$ID" "$TIER" > "$OUT" 2>&1; rc=$?
 grep -E "VIOLATION|class:|signature:|HARNESS|simharness: [0-9]+ runs" "$OUT" | cut -c1-260 | head -12
 echo "rc=$rc"
